@@ -392,6 +392,8 @@ def extension_rules(rep, prog):
     want_I = ("ext", "list", (("ext", "range", (("ext", "len", (P,), ()),), ()),), ())
     by_init = {}
     for k, v in outer["init"].items():
+        while v[0] == "method" and v[2] == "copy" and not v[3] and v[1] != P:          # a copy of the directed part is the directed part
+            v = v[1]
         by_init.setdefault(v, []).append(k)
     nG, nI, nP = by_init.get(want_G, []), by_init.get(want_I, []), by_init.get(P, [])
     init_ok = len(nG) == 1 and len(nI) == 1 and len(nP) == 1
